@@ -761,9 +761,15 @@ func compactToSliceOfSlice(compact [][2]int) [][]int {
 //	process(buf)
 func (r *Regex) AppendAllIndex(dst [][2]int, b []byte, n int) [][2]int {
 	if n == 0 {
-		return nil
+		return dst
 	}
-	return r.engine.FindAllIndicesStreaming(b, n, dst)
+	if len(dst) == 0 {
+		return r.engine.FindAllIndicesStreaming(b, n, dst)
+	}
+	// The engine fills the slice it is given from index 0, so hand it the spare
+	// capacity behind the existing elements and append what it found.
+	found := r.engine.FindAllIndicesStreaming(b, n, dst[len(dst):])
+	return append(dst, found...)
 }
 
 // AppendAllStringIndex appends all successive match index pairs for the string
